@@ -5,16 +5,25 @@ from .props import prop, job, JOBS, Q, T
 
 FAMS = ["theta", "theta-union", "hll4", "hll6", "hll8", "hll-union", "cpc", "cpc-union"]
 
-def est_args(tier, seed, k, profile):
-    if k == 0:
-        return ["--mode", "grid", "--seed", seed]
-    fam = FAMS[(k - 1) % len(FAMS)]
+MULTS = "0.5,1,2,4,8,16,32,50,64,75,90,100"
+
+def est_files(tier):
+    """One trace file per (family, lg_k list): quick T=400 over three sizes; plus two high-lg_k files (above the HLL table range);
+    thorough T=2500, one file per family and lg_k."""
+    files = [["--mode", "grid"]]
     if tier == Q:
-        return ["--mode", "trials", "--family", fam, "--seed", seed, "--T", 100, "--lgk0", 8, "--lgk1", 11]
-    # thorough: two passes over the families: wide lg_k range at T=400, then T=900 on the middle range
-    if k <= len(FAMS):
-        return ["--mode", "trials", "--family", fam, "--seed", seed, "--T", 400, "--lgk0", 7, "--lgk1", 13]
-    return ["--mode", "trials", "--family", fam, "--seed", seed, "--T", 900, "--lgk0", 9, "--lgk1", 12]
+        for fam in FAMS:
+            files.append(["--mode", "trials", "--family", fam, "--T", 400, "--lgks", "8,10,12", "--mults", MULTS])
+        for fam in ("hll-union", "hll8", "cpc-union"):
+            files.append(["--mode", "trials", "--family", fam, "--T", 2500, "--lgks", "13", "--mults", "2,16"])
+    else:
+        for fam in FAMS:
+            for lgk in (7, 9, 10, 11, 12, 13):
+                files.append(["--mode", "trials", "--family", fam, "--T", 2500, "--lgks", str(lgk), "--mults", MULTS if lgk < 13 else "0.5,2,8,16,64,80"])
+    return files
+
+def est_args(tier, seed, k, profile):
+    return est_files(tier)[k] + ["--seed", seed]
 
 def est_nontrivial(evs):
     b = evs[0]
@@ -24,7 +33,7 @@ def est_nontrivial(evs):
 
 EST_JOB = job("est",
     harness="est_rec", inc=["common", "theta", "hll", "cpc"], spec="TraceEst", owners=["C06"],
-    flags=("-O2",), files={Q: 1 + len(FAMS), T: 1 + 2 * len(FAMS)}, args=est_args, nontrivial=est_nontrivial, heap="2g",
+    flags=("-O2",), files={Q: len(est_files(Q)), T: len(est_files(T))}, par=12, args=est_args, nontrivial=est_nontrivial, heap="2g",
 )
 
 # family trace jobs whose specs carry "C06:" clauses at every observation
@@ -33,7 +42,7 @@ C06_FAMILY_JOBS = ["theta", "thetaops", "tuple", "hll", "hllunion", "cpc"]
 @prop("C06", "exploration",
       "(b) dense sweep of binomial_bounds::get_lower/upper_bound over count x theta x {1,2,3} std devs (order, widening, exactness at theta = 1, "
       "invalid arguments refused); (c) seeded accuracy trials per family (Theta, Theta union, HLL_4/6/8, HLL union, CPC, CPC union) x lg_k x "
-      "n in {k/2, 2k, 16k, 100k}: per trial the bounds must bracket the estimate and widen, and per cell TLC judges bias (|mean z| <= 6/sqrt(T)+0.05), "
+      "n = m*k for 12 multipliers m in 0.5..100 (dense around the estimator crossovers), T = 400 (quick) / 2500 (thorough) trials per cell, lg_k 7..13: per trial the bounds must bracket the estimate and widen, and per cell TLC judges bias (|mean z| <= 6/sqrt(T)+0.05), "
       "spread (rms z <= 1+6/sqrt(2T)+0.05, z = error / published RSE) and coverage (>= nominal - 6 sigma - 2%) in integer arithmetic; "
       "(a) the C06-prefixed clauses (lb3<=lb2<=lb1<=est<=ub1<=ub2<=ub3, exact outside estimation mode) at every observation of the family traces "
       "(Theta, Theta set operations, Tuple, HLL, HLL union, CPC). A segment is one grid sweep / one trial cell / one family history; a cell is "
